@@ -59,11 +59,18 @@ fn main() {
         };
         std::process::exit(code);
     }
+    if args[1] == "c17-inner" {
+        std::process::exit(props::c17::inner(tier, seed));
+    }
     let code = match args[1].as_str() {
         "check" => match args[2].as_str() {
             "C16" => props::c16::run(tier, seed),
             "C01" => props::c01::run(tier, seed),
             "C10" => props::c10::run(tier, seed),
+            "C02" => props::c02::run(tier, seed),
+            "C17" => props::c17::run(tier, seed),
+            "C14" => props::c14::run(tier, seed),
+            "C15" => props::c15::run(tier, seed),
             "C11" => props::c11::run(tier, seed),
             "C06" => e3::run_check("C06", tier, seed, &["release", "wrapping"]),
             "C07" => e3::run_check("C07", tier, seed, &["release"]),
